@@ -163,6 +163,7 @@ impl Executor<'_> {
             }
         }
         let mut session = CompilerSession::default();
+        let mut held = crate::observe::Held::new();
         let mut fresh: Option<Fresh> = None;
         let mut record = Record { events: Vec::new(), violations: Vec::new(), stats: Stats::default() };
         let check_c15 = self.focus != "C09";
@@ -194,7 +195,8 @@ impl Executor<'_> {
                         drop(snapshot);
                         answer
                     } else {
-                        observe_s.ask(&session, &s_root, query)
+                        // keep the analysis handle of every third query for the `*Held` queries
+                        observe_s.ask_holding(&session, &s_root, query, &mut held, step % 3 == 0)
                     };
                     model.after_query();
                     Stats::bump(&mut record.stats.answer_kinds, &format!("{}:{}", query.label(), answer_kind(&answer_s)));
@@ -341,6 +343,14 @@ impl Executor<'_> {
                         | Op::WriteRefresh { content, .. } | Op::SilentWrite { content, .. } => {
                             s_side.put(slot, &Disk::File(content.clone()))
                         }
+                        | Op::StampedWriteRefresh { content, .. } => {
+                            // same length, same modification time: only the bytes change
+                            let stamp = std::fs::metadata(&path).and_then(|m| m.modified()).ok();
+                            s_side.put(slot, &Disk::File(content.clone()));
+                            if let (Some(stamp), Ok(file)) = (stamp, std::fs::OpenOptions::new().write(true).open(&path)) {
+                                let _ = file.set_modified(stamp);
+                            }
+                        }
                         | Op::DeleteRefresh { .. } | Op::SilentDelete { .. } => s_side.put(slot, &Disk::Absent),
                         | Op::FaultDirectory { .. } => s_side.put(slot, &Disk::Directory),
                         | Op::FaultGarbage { .. } => s_side.put(slot, &Disk::Garbage),
@@ -354,6 +364,7 @@ impl Executor<'_> {
                             ),
                             | Op::ClearOverlay { .. } => Some(session.clear_overlay(&path).map_err(|e| e.to_string())),
                             | Op::WriteRefresh { .. }
+                            | Op::StampedWriteRefresh { .. }
                             | Op::DeleteRefresh { .. }
                             | Op::FaultDirectory { .. }
                             | Op::FaultGarbage { .. }
